@@ -1169,8 +1169,11 @@ impl Sim {
                 let al = self.g.nodes[n].alias;
                 self.seed_pinned_aliases.insert(al);
                 self.fault("F2_seed_is_a_clone_of_a_live_array");
+                let as_view = !self.info[*s].as_ref().map(|h| h.tracked).unwrap_or(true) && self.passes.len() % 2 == 1;
                 let slots = self.sh.slots.borrow();
-                Some(slots[*s].as_ref().unwrap().clone().untracked())
+                let h = slots[*s].as_ref().unwrap();
+                // every other time as a fresh view of the array's storage instead of a clone of the handle
+                Some(if as_view { h.reshape(h.dimensions().to_vec()) } else { h.clone().untracked() })
             }
             Seed::None => None,
             Seed::Ones => Some(mk(&rdims, &vec![1.0; ne])),
